@@ -70,15 +70,17 @@ def quarter(x: float):
 def gate_name(gate, params=()):
     """Map a BQSKit gate (+ params) to (name, p) of Monomial.tla, or None if outside the library.
 
-    Only *names* are read from the implementation (class identity), never matrices.
+    Only *names* and constructor arguments are read from the implementation (class identity,
+    radixes, documented constructor attributes), never matrices.  For the names with constructor
+    arguments (PERM, SUBSWAP, MPRZ, MPRY) those come first in p, then the parameters.
     """
-    from bqskit.ir import gates as G
     cls = type(gate).__name__
     consts = {
         'XGate': 'X', 'YGate': 'Y', 'ZGate': 'Z', 'SGate': 'S', 'SdgGate': 'Sdg', 'TGate': 'T', 'TdgGate': 'Tdg',
         'SqrtTGate': 'SqrtT', 'CXGate': 'CX', 'CNOTGate': 'CX', 'CYGate': 'CY', 'CZGate': 'CZ', 'CSGate': 'CS',
         'CTGate': 'CT', 'ISwapGate': 'ISWAP', 'SycamoreGate': 'Sycamore', 'ZZGate': 'ZZ',
         'CCXGate': 'CCX', 'ToffoliGate': 'CCX', 'CPIGate': 'CPI',
+        'IToffoliGate': 'IToffoli', 'RCCXGate': 'RCCX', 'MargolusGate': 'RCCX', 'RC3XGate': 'RC3X',
     }
     if cls in consts:
         if all(r == 2 for r in gate.radixes) or cls == 'CPIGate':
@@ -86,32 +88,46 @@ def gate_name(gate, params=()):
         return None
     if cls == 'SwapGate':
         return 'SWAP', []
-    if cls == 'IdentityGate' and gate.num_qudits == 1:
-        return 'I', []
+    if cls == 'IdentityGate':
+        return ('I', []) if gate.num_qudits == 1 else ('IDN', [])
     if cls == 'ShiftGate':
         return 'Shift', []
     if cls == 'ClockGate' and gate.radixes[0] in (2, 3, 4):
         return 'Clock', []
     if cls == 'CSUMGate':
         return 'CSUM', []
+    if cls == 'PermutationGate':
+        return 'PERM', [int(q) for q in gate.location]
+    if cls == 'SubSwapGate':
+        return None          # constructor arguments are not kept on the object: named through bq_gate only
     par = {'RZGate': ('RZ', 1), 'U1Gate': ('U1', 1), 'CPGate': ('CP', 1), 'CRZGate': ('CRZ', 1), 'RZZGate': ('RZZ', 1),
-           'CCPGate': ('CCP', 1)}
+           'CCPGate': ('CCP', 1), 'ArbitraryCPhaseGate': ('ACP', 1), 'DiagonalGate': ('DIAG', 0)}
     if cls in par:
         ps = [quarter(float(x)) for x in params]
         if None in ps:
             return None
         return par[cls][0], ps
-    half = {'RXGate': 'RX', 'RYGate': 'RY', 'CRXGate': 'CRX', 'CRYGate': 'CRY'}
+    half = {'RXGate': 'RX', 'RYGate': 'RY', 'CRXGate': 'CRX', 'CRYGate': 'CRY', 'RXXGate': 'RXX', 'RYYGate': 'RYY'}
     if cls in half:
         p = quarter(float(params[0]))
         if p is None or p % 4 != 0:
             return None
         return half[cls], [p]
-    if cls == 'U3Gate':
+    if cls in ('U3Gate', 'CUGate', 'U1qGate'):
         ps = [quarter(float(x)) for x in params]
         if None in ps or ps[0] % 4 != 0:
             return None
-        return 'U3', ps
+        return {'U3Gate': 'U3', 'CUGate': 'CU', 'U1qGate': 'U1q'}[cls], ps
+    if cls == 'FSIMGate':
+        ps = [quarter(float(x)) for x in params]
+        if None in ps or ps[0] % 2 != 0:
+            return None
+        return 'FSIM', ps
+    if cls in ('MPRZGate', 'MPRYGate'):
+        ps = [quarter(float(x)) for x in params]
+        if None in ps or (cls == 'MPRYGate' and any(x % 4 for x in ps)):
+            return None
+        return cls[:4], [int(gate.target_qubit)] + ps
     return None
 
 
@@ -158,13 +174,17 @@ LIB2 = ['CX', 'CY', 'CZ', 'CS', 'CT', 'SWAP', 'ISWAP']
 LIB3 = ['CCX']
 
 
-def bq_gate(name, p=(), radix=2):
+def bq_gate(name, p=(), radix=2, radixes=None):
+    """Construct the BQSKit gate for a library name.  For names with constructor arguments the
+    arguments are the leading entries of p (see CTOR_ARGS); ``radixes`` is needed for IDN / ACP / DIAG / PERM / MPR*."""
     from bqskit.ir import gates as G
     m = {'X': G.XGate, 'Y': G.YGate, 'Z': G.ZGate, 'S': G.SGate, 'Sdg': G.SdgGate, 'T': G.TGate, 'Tdg': G.TdgGate,
          'SqrtT': G.SqrtTGate, 'CX': G.CXGate, 'CY': G.CYGate, 'CZ': G.CZGate, 'CS': G.CSGate, 'CT': G.CTGate,
          'ISWAP': G.ISwapGate, 'Sycamore': G.SycamoreGate, 'ZZ': G.ZZGate, 'CCX': G.CCXGate, 'CPI': G.CPIGate,
          'RZ': G.RZGate, 'U1': G.U1Gate, 'RX': G.RXGate, 'RY': G.RYGate, 'U3': G.U3Gate, 'CP': G.CPGate,
-         'CRZ': G.CRZGate, 'RZZ': G.RZZGate, 'CRX': G.CRXGate, 'CRY': G.CRYGate, 'CCP': G.CCPGate}
+         'CRZ': G.CRZGate, 'RZZ': G.RZZGate, 'CRX': G.CRXGate, 'CRY': G.CRYGate, 'CCP': G.CCPGate,
+         'IToffoli': G.IToffoliGate, 'RCCX': G.RCCXGate, 'RC3X': G.RC3XGate, 'RXX': G.RXXGate, 'RYY': G.RYYGate,
+         'FSIM': G.FSIMGate, 'CU': G.CUGate, 'U1q': G.U1qGate}
     if name == 'SWAP':
         return G.SwapGate(radix)
     if name == 'Shift':
@@ -175,23 +195,57 @@ def bq_gate(name, p=(), radix=2):
         return G.CSUMGate(radix)
     if name == 'I':
         return G.IdentityGate(1, [radix])
+    if name == 'IDN':
+        return G.IdentityGate(len(radixes), list(radixes))
+    if name == 'PERM':
+        return G.PermutationGate(len(radixes), list(p))
+    if name == 'SUBSWAP':
+        return G.SubSwapGate(radix, '%d,%d;%d,%d' % tuple(p[:4]))
+    if name == 'ACP':
+        return G.ArbitraryCPhaseGate(list(radixes))
+    if name == 'DIAG':
+        return G.DiagonalGate(len(radixes))
+    if name == 'MPRZ':
+        return G.MPRZGate(len(radixes), p[0])
+    if name == 'MPRY':
+        return G.MPRYGate(len(radixes), p[0])
     return m[name]()
 
 
-PARAM_ARITY = {'RZ': 1, 'U1': 1, 'RX': 1, 'RY': 1, 'U3': 3, 'CP': 1, 'CRZ': 1, 'RZZ': 1, 'CRX': 1, 'CRY': 1, 'CCP': 1}
-ARITY = {**{n: 1 for n in LIB1 + ['SqrtT', 'Shift', 'Clock', 'I', 'RZ', 'U1', 'RX', 'RY', 'U3']},
-         **{n: 2 for n in LIB2 + ['Sycamore', 'ZZ', 'CSUM', 'CPI', 'CP', 'CRZ', 'RZZ', 'CRX', 'CRY']},
-         **{n: 3 for n in LIB3 + ['CCP']}}
+# how many leading entries of p are constructor arguments (not parameters)
+CTOR_ARGS = {'PERM': None, 'SUBSWAP': 4, 'MPRZ': 1, 'MPRY': 1}
+
+
+def real_params(name, p):
+    """The real parameter vector (radians) encoded by the integer list p of an op record."""
+    if name in ('PERM', 'SUBSWAP') or PARAM_ARITY.get(name, 0) == 0 and name not in ('DIAG', 'MPRZ', 'MPRY'):
+        return []
+    k = CTOR_ARGS.get(name) or 0
+    return [x * math.pi / 4 for x in p[k:]]
+
+
+PARAM_ARITY = {'RZ': 1, 'U1': 1, 'RX': 1, 'RY': 1, 'U3': 3, 'CP': 1, 'CRZ': 1, 'RZZ': 1, 'CRX': 1, 'CRY': 1, 'CCP': 1,
+               'RXX': 1, 'RYY': 1, 'FSIM': 2, 'CU': 4, 'U1q': 2, 'ACP': 1}
+ARITY = {**{n: 1 for n in LIB1 + ['SqrtT', 'Shift', 'Clock', 'I', 'RZ', 'U1', 'RX', 'RY', 'U3', 'U1q']},
+         **{n: 2 for n in LIB2 + ['Sycamore', 'ZZ', 'CSUM', 'CPI', 'CP', 'CRZ', 'RZZ', 'CRX', 'CRY', 'RXX', 'RYY', 'FSIM', 'CU',
+                                  'SUBSWAP']},
+         **{n: 3 for n in LIB3 + ['CCP', 'IToffoli', 'RCCX']}, 'RC3X': 4}
 
 
 def random_params(rng: random.Random, name):
     k = PARAM_ARITY.get(name, 0)
     if k == 0:
         return []
-    if name in ('RX', 'RY', 'CRX', 'CRY'):
+    if name in ('RX', 'RY', 'CRX', 'CRY', 'RXX', 'RYY'):
         return [4 * rng.randint(-3, 4)]
     if name == 'U3':
         return [4 * rng.randint(-2, 3), rng.randint(-4, 8), rng.randint(-4, 8)]
+    if name == 'CU':
+        return [4 * rng.randint(-2, 3), rng.randint(-4, 8), rng.randint(-4, 8), rng.randint(-4, 8)]
+    if name == 'U1q':
+        return [4 * rng.randint(-2, 3), rng.randint(-4, 8)]
+    if name == 'FSIM':
+        return [2 * rng.randint(-3, 4), rng.randint(-4, 8)]
     return [rng.randint(-8, 8) for _ in range(k)]
 
 
@@ -263,3 +317,33 @@ def own_unitary(circ):
         inv = np.argsort(order)
         T = np.transpose(T, inv)
     return T.reshape(dim, dim)
+
+
+# ------------------------------------------------------------------ parallel batch validation
+def par_validate(spec, cfg, cases, scratch, groups=8, chunk=2000, timeout=1800, workers=2, env=None):
+    """common.batch_validate over ``groups`` JVMs at once (a batch trace spec evaluates its cases while TLC
+    computes the initial states, which is single-threaded).  Same return value as batch_validate; case indices
+    refer to ``cases``.  A failing JVM raises MachineryError."""
+    from concurrent.futures import ThreadPoolExecutor
+
+    from harness import common
+    n = len(cases)
+    if n == 0:
+        return [], 0, 0, []
+    groups = max(1, min(groups, n))
+    # round-robin so that expensive cases (generated in clusters) spread over the JVMs
+    idxs = [list(range(g, n, groups)) for g in range(groups)]
+
+    def one(ix):
+        return common.batch_validate(spec, cfg, [cases[i] for i in ix], scratch, chunk=chunk, timeout=timeout,
+                                     workers=workers, env=env)
+    with ThreadPoolExecutor(groups) as ex:
+        res = list(ex.map(one, idxs))
+    verdicts, states, trans, raw = [], 0, 0, []
+    for ix, (v, s, t, r) in zip(idxs, res):
+        verdicts += [(ix[i], step, clause, extra) for i, step, clause, extra in v]
+        states += s
+        trans += t
+        raw += r
+    verdicts.sort(key=lambda x: x[0])
+    return verdicts, states, trans, raw
